@@ -222,6 +222,42 @@ fn check_e2e_two_pass(ctx: &mut Ctx, head: &str, cont_arg: &str) {
     }
 }
 
+/// The grammar is the same in every mode: two multi-line `temp` blocks (same prefix, separated by a
+/// text line that ends the first block; or back to back with different prefixes, so that the line
+/// ending the first block *is* the second directive) are built, then cleaned. Build must give the
+/// model's temp files; clean must recognise both directives again and remove both files.
+fn check_e2e_clean(ctx: &mut Ctx, ws: &str, pre: &str, shape: u8) {
+    let other = if pre.starts_with('#') { "// " } else { "# " };
+    let src = match shape {
+        0 => format!("{ws}{pre}TXTPP#temp c15a.tmp\n{ws}{pre}body a\nplain text between\n{ws}{pre}TXTPP#temp c15b.tmp\n{ws}{pre}body b\nlast line\n"),
+        1 => format!("{ws}{pre}TXTPP#temp c15a.tmp\n{ws}{pre}body a\n{ws}{other}TXTPP#temp c15b.tmp\n{ws}{other}body b\nlast line\n"),
+        _ => format!("first line\n{ws}{pre}TXTPP#write w\n{ws}{pre}TXTPP#temp c15a.tmp\nmiddle\n{ws}{other}TXTPP#temp c15b.tmp\n{ws}{other}body b\n{ws}{other}"),
+    };
+    let mut files = Files::new();
+    files.insert("a.txt.txtpp".into(), src.clone().into_bytes());
+    let case = ProjectCase::simple(files);
+    let root = ctx.scratch.fresh();
+    let res = crate::props::common::run_project_at(ctx, &case, &root, false);
+    ctx.count("e2e_clean_runs", 1);
+    ctx.distinct.insert(hash_str(&format!("clean|{ws}|{pre}|{shape}")));
+    let cj = json!({"kind": "e2e-clean", "ws": ws, "pre": pre, "shape": shape});
+    let problems = judge_project(&case, &res);
+    for (sig, msg) in &problems {
+        ctx.violation(format!("C15:e2e:{sig}"), format!("{msg}\nsource {src:?}"), cj.clone());
+    }
+    if problems.is_empty() && res.outcome.verdict.is_ok() && res.expect.out_of_domain.is_none() {
+        let mut c2 = case.clone();
+        c2.mode = txtpp::Mode::Clean;
+        let o = crate::run::run_inproc(&c2.cfg(&root), c2.spec.clone(), Some(&root), false);
+        ctx.evals += 1;
+        let left: Vec<String> = res.expect.built.temps.keys().chain(res.expect.built.outputs.keys()).filter(|p| root.join(p).exists()).cloned().collect();
+        if o.verdict.is_ok() && !left.is_empty() {
+            ctx.violation("C15:e2e:clean-did-not-recognise-directive", format!("clean after a build left {left:?} in place: the directive lines were not recognised as in build mode\nsource {src:?}"), cj);
+        }
+    }
+    ctx.scratch.discard(&root);
+}
+
 fn safe_for_e2e(line: &str) -> bool {
     // only lines whose directives (if any) run nothing and read nothing
     match model::detect(line) {
@@ -321,6 +357,18 @@ fn run(ctx: &mut Ctx) {
             }
         }
     }
+    let mut kk = 0u64;
+    for (ws, pre, ty) in &dirs {
+        if ty != "temp" || pre.is_empty() || pre.contains("TXTPP") {
+            continue;
+        }
+        for shape in 0..3u8 {
+            kk += 1;
+            if kk <= 240 && ctx.claim(6_000_000 + kk) {
+                check_e2e_clean(ctx, ws, pre, shape);
+            }
+        }
+    }
     ctx.sample(|| json!({"detect_line": line_of(77_777, 4, &TOK), "reference": format!("{:?}", model::detect(&line_of(77_777, 4, &TOK)))}));
     ctx.sample(|| json!({"continuation": {"ws": " ", "prefix": "// ", "type": "run", "next": " //  x \t"}, "reference": format!("{:?}", model::continues(&model::Dir{ws:" ".into(), pre:"// ".into(), name:"run".into(), args: vec![]}, " //  x \t"))}));
     ctx.exhaustive = Some(true);
@@ -331,6 +379,7 @@ fn replay(ctx: &mut Ctx, case: &Value) {
         Some("detect") => check_detect(ctx, case["line"].as_str().unwrap_or("")),
         Some("add") => check_add(ctx, case["ws"].as_str().unwrap_or(""), case["pre"].as_str().unwrap_or(""), case["ty"].as_str().unwrap_or(""), case["next"].as_str().unwrap_or("")),
         Some("e2e") => check_e2e(ctx, case["line"].as_str().unwrap_or(""), case["next"].as_str().unwrap_or("")),
+        Some("e2e-clean") => check_e2e_clean(ctx, case["ws"].as_str().unwrap_or(""), case["pre"].as_str().unwrap_or(""), case["shape"].as_u64().unwrap_or(0) as u8),
         Some("e2e2") => check_e2e_two_pass(ctx, case["head"].as_str().unwrap_or(""), case["cont"].as_str().unwrap_or("")),
         _ => eprintln!("unknown case kind"),
     }
